@@ -1,15 +1,12 @@
 /-
-  Proofs/MixtureDMJoint.lean — a *verified repair proposal* for finding F2 (`MixedStabilizer.apply_measurement` measures every
-  branch on its own).  NOT a model of the code as it stands: `measureJoint` / `measureJointNorm` below are the algorithm of the
-  patch proposed in handoff/deep-c06.md (one outcome for the whole mixture; branch `k` is projected on it with weight
-  `w_k · P_k(o)`, `P_k(o) ∈ {0, ½, 1}` read off the tableau; branches with `P_k(o) = 0` are dropped; the total weight is kept).
+  Proofs/MixtureDMJoint.lean — the repaired `MixedStabilizer.apply_measurement` (joint measurement, `Mix.measure` of
+  Model/Noise.lean; the per-branch measurement of graphiq before the repair of finding F2 is `Mix.measureOld`).
 
-  * `measureJoint_spec` : for **every** mixture of valid tableaux (no agreement between the branches needed), every n,
-      `Σ (measureJoint q o m) = Π_o (Σ m) Π_o`   and   `total (measureJoint q o m) = tr((Σ m) Π_o)`;
+  * `measureJoint_spec` : for **every** mixture of valid tableaux (no agreement between the branches needed), every n, the
+    candidate list of outcome `o` satisfies `Σ (measureJoint q o m) = Π_o (Σ m) Π_o` and `weight[o] = tr((Σ m) Π_o)`;
   * `joint_measurement_is_dm_measurement` : whenever `DensityMatrix.apply_measurement` returns a matrix, it reports the outcome
-    `measureJointNorm` chooses and its matrix is `Σ_k w_k ρ(T_k)` of the mixture `measureJointNorm` returns — the statement that
-    fails for the per-branch measurement of the code (finding F2) holds for the repaired one, for all mixtures with
-    non-negative weights.
+    `Mix.measure` reports and its matrix is `Σ_k w_k ρ(T_k)` of the mixture `Mix.measure` returns — for all mixtures with
+    non-negative weights, no weight threshold.
 -/
 import GraphiqModel.Proofs.MixtureDMPhysMeas
 import GraphiqModel.Proofs.MixtureDMWeights
@@ -17,25 +14,10 @@ namespace Graphiq
 namespace MixDM
 open Matrix Hilbert Noise DM PRow
 
-/-- what one branch contributes to the mixture projected on outcome `o` -/
-def jointBranch (q : Nat) (o : Bool) (x : Rat × Tab) : Option (Rat × Tab) :=
-  match x.2.pivot q with
-  | some _ => some (x.1 / 2, (x.2.zMeasure q o).1.norm)                       -- random in this branch: probability ½
-  | none => if (x.2.zMeasure q o).2.1 = o then some (x.1, (x.2.zMeasure q o).1.norm) else none   -- deterministic
-
-/-- **proposed joint measurement**, unnormalised: every branch projected on the same outcome `o` -/
-def measureJoint (q : Nat) (o : Bool) (m : Mixture) : Mixture := m.filterMap (jointBranch q o)
-
-theorem measureJoint_cons (q : Nat) (o : Bool) (x : Rat × Tab) (m : Mixture) :
-    measureJoint q o (x :: m) = (match jointBranch q o x with | some y => y :: measureJoint q o m | none => measureJoint q o m) := by
-  unfold measureJoint
-  rw [List.filterMap_cons]
-  cases jointBranch q o x <;> rfl
-
 /-- one branch, any kind -/
 theorem jointBranch_spec (n : Nat) (w : Rat) (t : Tab) (hn : t.n = n) (hv : t.Valid) (hr : t.StabReal) (q : Nat) (hq : q < n)
     (o : Bool) :
-    (match jointBranch q o (w, t) with
+    (match Mix.jointBranch q o (w, t) with
       | some y => ((y.1 : ℚ) : ℂ) • tabRho n y.2 = ((w : ℚ) : ℂ) • (projZ n q o * tabRho n t * projZ n q o) ∧
           ((y.1 : ℚ) : ℂ) = ((w : ℚ) : ℂ) * (tabRho n t * projZ n q o).trace ∧
           y.2.n = n ∧ y.2.Valid ∧ y.2.StabReal ∧ (0 ≤ w → 0 ≤ y.1)
@@ -45,7 +27,7 @@ theorem jointBranch_spec (n : Nat) (w : Rat) (t : Tab) (hn : t.n = n) (hv : t.Va
     intro o'
     refine ⟨by rw [Tab.norm_n, Tab.zMeasure_n]; exact hn, Tab.norm_valid _ (Tab.zMeasure_valid t q o' (hn ▸ hq) hv),
       norm_stabReal _ (zMeasure_stabReal t hv hr q o')⟩
-  unfold jointBranch
+  unfold Mix.jointBranch
   cases hp : t.pivot q with
   | some p =>
     simp only
@@ -74,25 +56,25 @@ theorem jointBranch_spec (n : Nat) (w : Rat) (t : Tab) (hn : t.n = n) (hv : t.Va
 
 /-- **the proposed joint measurement projects the state of the mixture**, whatever the branches look like -/
 theorem measureJoint_spec (n q : Nat) (hq : q < n) (o : Bool) : ∀ (m : Mixture), MixGood n m →
-    mixRho n (measureJoint q o m) = projZ n q o * mixRho n m * projZ n q o ∧
-    ((Mix.total (measureJoint q o m) : ℚ) : ℂ) = (mixRho n m * projZ n q o).trace ∧
-    MixGood n (measureJoint q o m) ∧ (MixNonneg m → MixNonneg (measureJoint q o m))
+    mixRho n (Mix.measureJoint q o m) = projZ n q o * mixRho n m * projZ n q o ∧
+    ((Mix.total (Mix.measureJoint q o m) : ℚ) : ℂ) = (mixRho n m * projZ n q o).trace ∧
+    MixGood n (Mix.measureJoint q o m) ∧ (MixNonneg m → MixNonneg (Mix.measureJoint q o m))
   | [], _ => by
-    refine ⟨by simp [measureJoint, mixRho_nil], by simp [measureJoint, mixRho_nil, Mix.total_nil], ?_, ?_⟩
-    · intro x hx; simp [measureJoint] at hx
-    · intro _ x hx; simp [measureJoint] at hx
+    refine ⟨by simp [Mix.measureJoint, mixRho_nil], by simp [Mix.measureJoint, mixRho_nil, Mix.total_nil], ?_, ?_⟩
+    · intro x hx; simp [Mix.measureJoint] at hx
+    · intro _ x hx; simp [Mix.measureJoint] at hx
   | (w, t) :: rest, hg => by
     obtain ⟨hn, hv, hr⟩ := hg.head
     obtain ⟨i1, i2, i3, i4⟩ := measureJoint_spec n q hq o rest hg.tail
     have hb := jointBranch_spec n w t hn hv hr q hq o
-    rw [measureJoint_cons]
+    rw [Mix.measureJoint_cons]
     have expand : projZ n q o * mixRho n ((w, t) :: rest) * projZ n q o
         = ((w : ℚ) : ℂ) • (projZ n q o * tabRho n t * projZ n q o) + projZ n q o * mixRho n rest * projZ n q o := by
       rw [mixRho_cons, Matrix.mul_add, Matrix.add_mul, Matrix.mul_smul, Matrix.smul_mul]
     have expandT : (mixRho n ((w, t) :: rest) * projZ n q o).trace
         = ((w : ℚ) : ℂ) * (tabRho n t * projZ n q o).trace + (mixRho n rest * projZ n q o).trace := by
       rw [mixRho_cons, Matrix.add_mul, Matrix.trace_add, Matrix.smul_mul, Matrix.trace_smul, smul_eq_mul]
-    cases hj : jointBranch q o (w, t) with
+    cases hj : Mix.jointBranch q o (w, t) with
     | some y =>
       rw [hj] at hb
       simp only at hb ⊢
@@ -117,13 +99,35 @@ theorem measureJoint_spec (n q : Nat) (hq : q < n) (o : Bool) : ∀ (m : Mixture
       · rw [i1, expand, h1]; simp
       · rw [i2, expandT, h2]; simp
 
-theorem total_nonneg (m : Mixture) (h : MixNonneg m) : 0 ≤ Mix.total m := by
-  induction m with
-  | nil => simp [Mix.total_nil]
-  | cons x xs ih =>
-    obtain ⟨w, t⟩ := x
-    rw [Mix.total_cons]
-    exact add_nonneg (h (w, t) List.mem_cons_self) (ih (fun z hz => h z (List.mem_cons_of_mem _ hz)))
+theorem measureJoint_fixed (n q : Nat) (hq : q < n) (o : Bool) (m : Mixture) (hg : MixGood n m) :
+    Fixed n q o (Mix.measureJoint q o m) := by
+  intro y hy
+  unfold Mix.measureJoint at hy
+  rw [List.mem_filterMap] at hy
+  obtain ⟨⟨w, t⟩, hx, hj⟩ := hy
+  obtain ⟨hn, hv, hr⟩ := hg (w, t) hx
+  unfold Mix.jointBranch at hj
+  cases hp : t.pivot q with
+  | some p =>
+    simp only [hp] at hj
+    injection hj with hj; subst hj
+    obtain ⟨b1, _, _⟩ := branch_random n t hn hv hr q hq o p hp
+    show projZ n q o * tabRho n (t.zMeasure q o).1.norm * projZ n q o = tabRho n (t.zMeasure q o).1.norm
+    rw [b1, Matrix.mul_smul, Matrix.smul_mul]
+    congr 1
+    calc projZ n q o * (projZ n q o * tabRho n t * projZ n q o) * projZ n q o
+        = (projZ n q o * projZ n q o) * tabRho n t * (projZ n q o * projZ n q o) := by simp only [Matrix.mul_assoc]
+      _ = projZ n q o * tabRho n t * projZ n q o := by rw [projZ_idem]
+  | none =>
+    simp only [hp] at hj
+    split at hj
+    · rename_i ho
+      injection hj with hj; subst hj
+      obtain ⟨b1, b2, _, _⟩ := branch_det n t hn hv hr q hq o hp
+      rw [ho] at b2
+      show projZ n q o * tabRho n (t.zMeasure q o).1.norm * projZ n q o = tabRho n (t.zMeasure q o).1.norm
+      rw [b1, b2]
+    · cases hj
 
 theorem photonLoss_mixN' (n : Nat) (r : Rat) (m : Mixture) (h : MixGood n m) : MixGood n (Mix.photonLoss r m) := by
   intro x hx
@@ -131,42 +135,107 @@ theorem photonLoss_mixN' (n : Nat) (r : Rat) (m : Mixture) (h : MixGood n m) : M
   obtain ⟨⟨p, t⟩, hy, rfl⟩ := hx
   exact h (p, t) hy
 
-/-- **proposed `apply_measurement` for a mixture**: the outcome rule of the density-matrix backend on the summed branch
-    probabilities, every branch projected on that outcome, weights rescaled so that the total weight is kept -/
-def measureJointNorm (q : Nat) (det : Bool) (m : Mixture) : Mixture × Bool :=
-  let q0 := Mix.total (measureJoint q false m)
-  let q1 := Mix.total (measureJoint q true m)
-  let outcome : Bool := if det then !isclose0 q1 else isclose0 q0
-  let norm : Rat := if 0 < q0 + q1 then (if outcome then q1 else q0) / (q0 + q1) else 1
-  (Mix.photonLoss (1 - 1 / norm) (measureJoint q outcome m), outcome)
+theorem mixRho_map_scale (n : Nat) (c d : Rat) : ∀ (m : Mixture),
+    mixRho n (m.map fun x => (x.1 * c / d, x.2)) = (((c / d : ℚ)) : ℂ) • mixRho n m
+  | [] => by simp [mixRho_nil]
+  | (w, t) :: rest => by
+    simp only [List.map_cons]
+    rw [mixRho_cons, mixRho_cons, mixRho_map_scale n c d rest, smul_add, smul_smul]
+    congr 2
+    push_cast
+    ring
 
-/-- **the repaired measurement agrees with the density-matrix backend on every mixture** (valid branches, non-negative weights;
-    no agreement between the branches, no weight threshold): whenever `DensityMatrix.apply_measurement` returns a matrix, the
-    outcome is the one `measureJointNorm` reports and the matrix is `Σ_k w_k ρ(T_k)` of the mixture it returns. -/
+theorem mixRho_map_zero (n : Nat) (f : Tab → Tab) : ∀ (m : Mixture), mixRho n (m.map fun x => (0 * x.1, f x.2)) = 0
+  | [] => by simp [mixRho_nil]
+  | (w, t) :: rest => by
+    simp only [List.map_cons]
+    rw [mixRho_cons, mixRho_map_zero n f rest]
+    simp
+
+/-- every weight is `0` -/
+def ZeroW (m : Mixture) : Prop := ∀ x ∈ m, x.1 = 0
+
+theorem mixRho_zeroW (n : Nat) : ∀ (m : Mixture), ZeroW m → mixRho n m = 0
+  | [], _ => mixRho_nil n
+  | (w, t) :: rest, h => by
+    rw [mixRho_cons, mixRho_zeroW n rest (fun x hx => h x (List.mem_cons_of_mem _ hx))]
+    have : w = 0 := h (w, t) List.mem_cons_self
+    rw [this]; simp
+
+theorem zeroW_of_total (m : Mixture) (hnn : MixNonneg m) (ht : Mix.total m = 0) : ZeroW m := by
+  induction m with
+  | nil => intro x hx; cases hx
+  | cons y ys ih =>
+    obtain ⟨w, t⟩ := y
+    rw [Mix.total_cons] at ht
+    have hw : 0 ≤ w := hnn (w, t) List.mem_cons_self
+    have hr := total_nonneg ys (fun z hz => hnn z (List.mem_cons_of_mem _ hz))
+    have hw0 : w = 0 := by linarith
+    have hr0 : Mix.total ys = 0 := by linarith
+    intro x hx
+    rcases List.mem_cons.1 hx with e | hx
+    · rw [e]; exact hw0
+    · exact ih (fun z hz => hnn z (List.mem_cons_of_mem _ hz)) hr0 x hx
+
+theorem zeroW_map_zero (f : Tab → Tab) (m : Mixture) : ZeroW (m.map fun x => (0 * x.1, f x.2)) := by
+  intro x hx
+  simp only [List.mem_map] at hx
+  obtain ⟨y, _, rfl⟩ := hx
+  simp
+
+theorem zeroW_mapTab (f : Tab → Tab) (m : Mixture) (h : ZeroW m) : ZeroW (Mix.mapTab f m) := by
+  intro x hx
+  simp only [Mix.mapTab, List.mem_map] at hx
+  obtain ⟨⟨p, t⟩, hy, rfl⟩ := hx
+  exact h (p, t) hy
+
+/-- the repaired measurement keeps "valid tableaux with real stabilizer rows" -/
+theorem measure_good_new (n q : Nat) (hq : q < n) (det : Bool) (m : Mixture) (hg : MixGood n m) :
+    MixGood n (Mix.measure q det m).1 := by
+  intro x hx
+  obtain ⟨y, hy, o, e⟩ := mem_measure q det m x hx
+  obtain ⟨hn, hv, hr⟩ := hg y hy
+  rw [e]
+  exact ⟨by rw [Tab.norm_n, Tab.zMeasure_n]; exact hn, Tab.norm_valid _ (Tab.zMeasure_valid y.2 q o (hn ▸ hq) hv),
+    norm_stabReal _ (zMeasure_stabReal y.2 hv hr q o)⟩
+
+/-- the outcome the repaired measurement reports (`[outcome] * len`) -/
+def measOutcome (q : Nat) (det : Bool) (m : Mixture) : Bool :=
+  if det then !isclose0 (Mix.total (Mix.measureJoint q true m)) else isclose0 (Mix.total (Mix.measureJoint q false m))
+
+theorem measure_outcomes (q : Nat) (det : Bool) (m : Mixture) :
+    (Mix.measure q det m).2 = List.replicate (Mix.measure q det m).1.length (measOutcome q det m) := rfl
+
+/-- **the repaired `apply_measurement` agrees with the density-matrix backend on every mixture** (valid branches, non-negative
+    weights; no agreement between the branches, no weight threshold): whenever `DensityMatrix.apply_measurement` returns a
+    matrix, the outcome is the one `Mix.measure` reports and the matrix is `Σ_k w_k ρ(T_k)` of the mixture it returns; that
+    mixture is either made of branches fixed by `Π_o`, or has all weights `0` (the `0.0 · p_i` branch of the code). -/
 theorem joint_measurement_is_dm_measurement (n q : Nat) (hq : q < n) (det : Bool) (m : Mixture) (ρ p0 p1 : Mat)
     (hg : MixGood n m) (hnn : MixNonneg m) (hρn : ρ.n = 2 ^ n) (hρ : toC n ρ = mixRho n m)
     (hp : projectorsZ n q = .ok (p0, p1)) (ρ' : Mat) (o : Bool) (h : applyMeasurement ρ p0 p1 det = .ok (some ρ', o)) :
-    o = (measureJointNorm q det m).2 ∧ toC n ρ' = mixRho n (measureJointNorm q det m).1 ∧ ρ'.n = 2 ^ n ∧
-      MixGood n (measureJointNorm q det m).1 := by
+    o = measOutcome q det m ∧ toC n ρ' = mixRho n (Mix.measure q det m).1 ∧ ρ'.n = 2 ^ n ∧
+      (Fixed n q o (Mix.measure q det m).1 ∨ ZeroW (Mix.measure q det m).1) := by
   obtain ⟨e0, e1, n0, n1⟩ := toC_projectorsZ n q hq p0 p1 hp
   obtain ⟨a1, a2, a3, a4⟩ := measureJoint_spec n q hq false m hg
   obtain ⟨b1, b2, b3, b4⟩ := measureJoint_spec n q hq true m hg
-  have t0 : (ρ.mul p0).trace.re = Mix.total (measureJoint q false m) :=
+  have t0 : (ρ.mul p0).trace.re = Mix.total (Mix.measureJoint q false m) :=
     trace_re_of n ρ p0 hρn _ (by rw [hρ, e0, a2])
-  have t1 : (ρ.mul p1).trace.re = Mix.total (measureJoint q true m) :=
+  have t1 : (ρ.mul p1).trace.re = Mix.total (Mix.measureJoint q true m) :=
     trace_re_of n ρ p1 hρn _ (by rw [hρ, e1, b2])
   have x0n := total_nonneg _ (a4 hnn)
   have x1n := total_nonneg _ (b4 hnn)
-  have pr0 : prOf ρ p0 = Mix.total (measureJoint q false m) := by
+  have pr0 : prOf ρ p0 = Mix.total (Mix.measureJoint q false m) := by
     unfold prOf; simp only; rw [t0, if_neg (not_lt.2 x0n)]
-  have pr1 : prOf ρ p1 = Mix.total (measureJoint q true m) := by
+  have pr1 : prOf ρ p1 = Mix.total (Mix.measureJoint q true m) := by
     unfold prOf; simp only; rw [t1, if_neg (not_lt.2 x1n)]
   have hnn' : ρ.n = p0.n := by rw [hρn, n0]
+  have hpair := Mix.total_measureJoint_pair q m
   rw [applyMeasurement_eq ρ p0 p1 det hnn', pr0, pr1] at h
-  unfold measureJointNorm
+  have hfix : ∀ oc, Fixed n q oc (Mix.measureJoint q oc m) := fun oc => measureJoint_fixed n q hq oc m hg
+  unfold measOutcome Mix.measure
   simp only at h ⊢
-  generalize Mix.total (measureJoint q false m) = q0 at *
-  generalize Mix.total (measureJoint q true m) = q1 at *
+  generalize Mix.total (Mix.measureJoint q false m) = q0 at *
+  generalize Mix.total (Mix.measureJoint q true m) = q1 at *
   generalize hoc : (if det = true then !isclose0 q1 else isclose0 q0) = oc at h ⊢
   by_cases hz : (if 0 < q0 + q1 then (if oc = true then q1 else q0) / (q0 + q1) else 1) = 0
   · rw [if_pos hz] at h; injection h with h; injection h with h1 h2; cases h1
@@ -175,18 +244,44 @@ theorem joint_measurement_is_dm_measurement (n q : Nat) (hq : q < n) (det : Bool
     injection h with h1 h2
     injection h1 with h1
     subst h2
-    generalize (if 0 < q0 + q1 then (if oc = true then q1 else q0) / (q0 + q1) else 1) = norm at *
-    obtain ⟨c1, _, c3, _⟩ := measureJoint_spec n q hq oc m hg
+    obtain ⟨c1, _, _, _⟩ := measureJoint_spec n q hq oc m hg
     have hpn : (if oc = true then p1 else p0).n = 2 ^ n := by cases oc <;> simp [n0, n1]
     have hpc : toC n (if oc = true then p1 else p0) = projZ n q oc := by cases oc <;> simp [e0, e1]
-    have hsz : (Mat.smul (1 / norm) (Mat.conjBy (if oc = true then p1 else p0) ρ)).n = 2 ^ n := hpn
-    refine ⟨rfl, ?_, by rw [← h1]; exact hpn, photonLoss_mixN' n _ _ c3⟩
-    rw [← h1, toC_norm n _ hsz, toC_smul, toC_conjBy n _ _ hpn, hpc, hρ, mixRho_photonLoss, c1]
-    unfold conjH
-    rw [projZ_herm]
-    congr 1
-    push_cast
-    ring
+    have hwo0 : 0 ≤ (if oc = true then q1 else q0) := by cases oc <;> simp [x0n, x1n]
+    have hdm : toC n ρ' = (((1 / (if 0 < q0 + q1 then (if oc = true then q1 else q0) / (q0 + q1) else 1) : ℚ)) : ℂ) •
+        (projZ n q oc * mixRho n m * projZ n q oc) := by
+      have hsz : (Mat.smul (1 / (if 0 < q0 + q1 then (if oc = true then q1 else q0) / (q0 + q1) else 1))
+          (Mat.conjBy (if oc = true then p1 else p0) ρ)).n = 2 ^ n := hpn
+      rw [← h1, toC_norm n _ hsz, toC_smul, toC_conjBy n _ _ hpn, hpc, hρ]
+      unfold conjH
+      rw [projZ_herm]
+    refine ⟨rfl, ?_, by rw [← h1]; exact hpn, ?_⟩
+    · by_cases hw : 0 < (if oc = true then q1 else q0)
+      · have htot : 0 < q0 + q1 := by cases oc <;> simp at hw <;> linarith
+        rw [if_pos hw, hdm, if_pos htot, mixRho_map_scale, c1]
+        congr 1
+        have hwne : (if oc = true then q1 else q0) ≠ 0 := ne_of_gt hw
+        have htne : q0 + q1 ≠ 0 := ne_of_gt htot
+        push_cast
+        field_simp
+      · have hw0 : (if oc = true then q1 else q0) = 0 := le_antisymm (not_lt.1 hw) hwo0
+        have htot : ¬ 0 < q0 + q1 := by
+          intro hpos
+          rw [if_pos hpos, hw0, zero_div] at hz
+          exact hz rfl
+        have hT : Mix.total m = 0 := by rw [← hpair]; linarith
+        rw [if_neg hw, hdm, mixRho_map_zero n (fun t => (t.zMeasure q oc).1.norm) m, mixRho_zeroW n m (zeroW_of_total m hnn hT)]
+        simp
+    · by_cases hw : 0 < (if oc = true then q1 else q0)
+      · left
+        rw [if_pos hw]
+        intro x hx
+        simp only [List.mem_map] at hx
+        obtain ⟨z, hz', rfl⟩ := hx
+        exact hfix oc z hz'
+      · right
+        rw [if_neg hw]
+        exact zeroW_map_zero (fun t => (t.zMeasure q oc).1.norm) m
 
 end MixDM
 end Graphiq
